@@ -660,6 +660,7 @@ func checkC19(p *Prog, res *Result, tier string) {
 	res.rule("C19-R6", "event batches shared between subscriber goroutines are not written by any of them (C05-R8)", 2)
 	res.rule("C19-R5", "no self-deadlock: a mutex is never (re)acquired exclusively on a path on which the same goroutine already holds it, directly or through a called repo function", 1)
 	res.rule("C19-R7", "no append onto a slice that belongs to a shared object (a field of a long-lived struct, a package variable) unless the result is stored back into that same place: with spare capacity the append writes into the shared array from whichever goroutine runs it", 10)
+	res.rule("C19-R8", "a goroutine that announces its end with a deferred WaitGroup.Done is counted (Add) by whoever starts it, before the go statement - never by itself", 2)
 	res.rule("C19-R4", "post-construction writes to fields of mutex-less types are atomic or confined (frozen table)", 5)
 
 	lc := p.lockContext()
@@ -874,6 +875,7 @@ func checkC19(p *Prog, res *Result, tier string) {
 	// ---- R5: self-deadlock ----
 	checkSelfDeadlock(p, p.lockContext(), res, "C19-R5")
 	checkLockPairing(p, res, "C19-R5")
+	checkAddBeforeGo(p, res, "C19-R8")
 	checkSharedAppend(p, res, "C19-R7")
 
 	// ---- R6: shared batches are read-only (C05-R8) ----
@@ -1208,6 +1210,10 @@ func checkUnguardedTypes(p *Prog, res *Result, inOwner map[*types.Var]bool) {
 		// entries whose confinement has a checkable shape are verified, not just trusted
 		if listed && strings.Contains(reason, "singleflight.Do") {
 			if site, ok := p.outsideSingleflight(fv); !ok {
+				if _, isDo := site.(ssa.CallInstruction); isDo {
+					res.bad("C19-R4", construct, p.pos(site.Pos()), "the field is listed as confined to the singleflight.Do callback, but the key of that Do call is not a constant: calls with different keys run their callbacks at the same time, and both read and write the field")
+					continue
+				}
 				res.bad("C19-R4", construct, p.pos(site.Pos()), "the field is listed as confined to the singleflight.Do callback, but it is accessed in "+funcName(site.Parent())+", which also runs outside that callback: concurrent requests read it while the callback writes it")
 				continue
 			}
@@ -1449,6 +1455,12 @@ func (p *Prog) outsideSingleflight(fv *types.Var) (ssa.Instruction, bool) {
 			if sc == nil || sc.Name() != "Do" || sc.Signature.Recv() == nil || !isNamed(sc.Signature.Recv().Type(), "golang.org/x/sync/singleflight", "Group") {
 				continue
 			}
+			// one execution at a time holds per key: the key has to be one constant
+			if len(c.Common().Args) >= 2 {
+				if _, isConst := constString(resolve(c.Common().Args[1])); !isConst {
+					return c.(ssa.Instruction), false
+				}
+			}
 			for _, a := range c.Common().Args {
 				for _, g := range p.funcValues(a, 0) {
 					inFlight[g] = true
@@ -1601,6 +1613,9 @@ func checkSelfDeadlock(p *Prog, lc *lockCtx, res *Result, rule string) {
 			if held != lkNone && (l.kind == "Lock" || held == lkExcl) {
 				violations++
 				res.bad(rule, fmt.Sprintf("%s: %s of %s while it is already held", funcName(f), l.kind, l.mutex.Name()), p.pos(l.ins.Pos()), "the mutex is acquired again on a path on which this goroutine already holds it ("+lkName(held)+"): sync mutexes are not reentrant, the goroutine blocks forever")
+			} else if held == lkRead && l.kind == "RLock" {
+				violations++
+				res.bad(rule, fmt.Sprintf("%s: %s of %s while it is already held", funcName(f), l.kind, l.mutex.Name()), p.pos(l.ins.Pos()), "the read lock is taken a second time by a goroutine that already holds it: a writer that asks for the lock in between blocks new readers (sync.RWMutex), so this goroutine waits for the writer and the writer for this goroutine - for ever")
 			}
 		}
 		// (b) across one static call
@@ -1654,6 +1669,9 @@ func checkSelfDeadlock(p *Prog, lc *lockCtx, res *Result, rule string) {
 				if held != lkNone && (l.kind == "Lock" || held == lkExcl) {
 					violations++
 					res.bad(rule, fmt.Sprintf("%s calls %s: %s of %s while the caller holds it", funcName(f), funcName(g), l.kind, l.mutex.Name()), p.pos(c.Pos()), "the callee acquires a mutex that the caller holds at this call ("+lkName(held)+"): the goroutine blocks forever (and everything waiting for that lock with it)")
+				} else if held == lkRead && l.kind == "RLock" {
+					violations++
+					res.bad(rule, fmt.Sprintf("%s calls %s: %s of %s while the caller holds it", funcName(f), funcName(g), l.kind, l.mutex.Name()), p.pos(c.Pos()), "the callee takes the read lock that the caller already holds: a writer that asks for the lock between the two acquisitions blocks new readers (sync.RWMutex), so this goroutine waits for the writer and the writer for this goroutine - every later request that needs the lock hangs")
 				}
 			}
 		}
@@ -1848,5 +1866,70 @@ func checkLockPairing(p *Prog, res *Result, rule string) {
 	}
 	if violations == 0 {
 		res.ok(rule, "every lock taken is released on every return", "-", fmt.Sprintf("%d non-deferred acquisitions examined", n))
+	}
+}
+
+// checkAddBeforeGo: a WaitGroup counts a goroutine from before it is started: a function that announces its own end
+// with a deferred Done on a WaitGroup must not be the one that calls Add on it when it is started with `go` - the Add
+// then races with the Wait of whoever joins (the joiner can pass Wait before the goroutine has counted itself, and goes
+// on - closing streams, returning from the handler - while the goroutine still runs).
+func checkAddBeforeGo(p *Prog, res *Result, rule string) {
+	p.buildCallers()
+	n := 0
+	var fs []*ssa.Function
+	for _, f := range p.AllFuncs {
+		if f.Synthetic != "" || f.Pkg == nil || f.Blocks == nil || !strings.HasPrefix(f.Pkg.Pkg.Path(), modPath) || strings.Contains(f.Pkg.Pkg.Path(), "/mock") {
+			continue
+		}
+		fs = append(fs, f)
+	}
+	sort.Slice(fs, func(i, j int) bool { return funcName(fs[i]) < funcName(fs[j]) })
+	wgOp := func(c ssa.CallInstruction) (string, string) {
+		sc := c.Common().StaticCallee()
+		if sc == nil || sc.Signature.Recv() == nil || !isNamed(sc.Signature.Recv().Type(), "sync", "WaitGroup") || len(c.Common().Args) == 0 {
+			return "", ""
+		}
+		return sc.Name(), accessPath(c.Common().Args[0])
+	}
+	for _, f := range fs {
+		done := map[string]bool{}
+		for _, c := range callsIn(f) {
+			if d, ok := c.(*ssa.Defer); ok {
+				if op, key := wgOp(d); op == "Done" {
+					done[key] = true
+				}
+			}
+		}
+		if len(done) == 0 {
+			continue
+		}
+		startedByGo := false
+		for _, cs := range p.callers[f] {
+			if _, isGo := cs.(*ssa.Go); isGo {
+				startedByGo = true
+			}
+		}
+		if !startedByGo {
+			continue
+		}
+		n++
+		construct := funcName(f) + ": counted on its WaitGroup before it is started"
+		var inside ssa.Instruction
+		for _, c := range callsIn(f) {
+			if _, isDefer := c.(*ssa.Defer); isDefer {
+				continue
+			}
+			if op, key := wgOp(c); op == "Add" && done[key] {
+				inside = c.(ssa.Instruction)
+			}
+		}
+		if inside != nil {
+			res.bad(rule, construct, p.pos(inside.Pos()), "the goroutine calls Add on the WaitGroup it later calls Done on: the Add is unordered with the Wait of the goroutine that joins (sync.WaitGroup: Add must happen before Wait), so the join can return - and the stream or handler be torn down - while this goroutine is still running and using it")
+		} else {
+			res.ok(rule, construct, p.pos(f.Pos()), "deferred Done, no Add of its own: whoever starts it counts it first")
+		}
+	}
+	if n == 0 {
+		res.ok(rule, "goroutines with a deferred WaitGroup.Done", "-", "none is started with go")
 	}
 }
